@@ -126,7 +126,10 @@ def oracle_pi(case, sel_idx):
         if sv[0] > 0 and np.any((sv / sv[0] > 1e-14) & (sv / sv[0] < 1e-6)):
             return None, 0.0
     Xr = proj_out(X, sel_idx, axis)
+    xmag = float(np.abs(X).max())
     if case["cls"] == "CUR":
+        if float(np.abs(Xr).max()) <= 1e-9 * xmag:        # residual is rounding noise: its singular vectors are arbitrary
+            return None, 0.0
         return pi_cur(Xr, axis, k)
     if sel_idx:
         if axis == 1:
@@ -137,7 +140,13 @@ def oracle_pi(case, sel_idx):
             yr = y - X @ b
     else:
         yr = y
-    return pi_pcov(Xr, yr, axis, k, case["params"]["mixing"])
+    ymag = float(np.abs(y).max())
+    mix = case["params"]["mixing"]
+    x_gone = float(np.abs(Xr).max()) <= 1e-9 * xmag
+    y_gone = float(np.abs(yr).max()) <= 1e-9 * max(ymag, 1e-300)
+    if (x_gone or mix == 0.0) and (y_gone or mix == 1.0 or (axis == 1 and x_gone)):
+        return None, 0.0                                    # the modified matrix is rounding noise
+    return pi_pcov(Xr, yr, axis, k, mix)
 
 
 def walk(case, ctx, idx, pis, tag=""):
